@@ -176,14 +176,18 @@ def run(pid, tier):
         path, nsc, predicted = scenarios(work, tier, PURPOSE[pid], model)
         tiers = tiers_for(pid, tier)
         shards = vlib.NCPU
-        traces, cmds = [], []
-        for t in tiers:
-            drv = vlib.build_driver("drv_codecs", t, LIB, **BUILD)
-            for s in range(shards):
-                out = os.path.join(work, "cod-%s-%02d.ndjson" % (t, s))
-                traces.append(out)
-                cmds.append([drv, path, str(s), str(shards), str(WHAT[pid]), out])
-        vlib.run_many(cmds, timeout=1200)
+        traces = []
+        # thorough: every scenario class is materialised under several seeds (other values inside the class)
+        seeds = [vlib.SEED] if tier == "quick" else [vlib.SEED + 101 * k for k in range(4)]
+        for sd in seeds:
+            cmds = []
+            for t in tiers:
+                drv = vlib.build_driver("drv_codecs", t, LIB, **BUILD)
+                for s in range(shards):
+                    out = os.path.join(work, "cod-%s-%d-%02d.ndjson" % (t, sd, s))
+                    traces.append(out)
+                    cmds.append([drv, path, str(s), str(shards), str(WHAT[pid]), out])
+            vlib.run_many(cmds, timeout=2400, env={"VERIF_SEED": sd})
         events, rejects, notes = vlib.validate(traces, "StoreTrace.tla", "StoreTrace.cfg", xmx="3g", timeout=1500)
         ntr = len(traces)
         if pid in ("C03", "C16"):
